@@ -14,9 +14,14 @@ LastSlashA(p) == LastIndexOf(p, SLASH)
 BaseName(p) == SubSeq(p, LastSlashA(p) + 1, Len(p))
 DirName(p) == IF LastSlashA(p) = 0 THEN <<>> ELSE SubSeq(p, 1, LastSlashA(p) - 1)     \* <<>> = find's own working directory
 
+\* the name -name looks at: the last component, trailing slashes of a starting point ignored ("d/" is "d"; "/" is "/")
+RECURSIVE StripSlashes(_)
+StripSlashes(p) == IF Len(p) > 1 /\ p[Len(p)] = SLASH THEN StripSlashes(SubSeq(p, 1, Len(p) - 1)) ELSE p
+NameOf(p) == IF StripSlashes(p) = <<SLASH>> THEN <<SLASH>> ELSE BaseName(StripSlashes(p))
+
 PreHolds(tree, e, pre) ==
   IF pre.p = "none" THEN TRUE
-  ELSE IF pre.p = "name" THEN GlobMatch(pre.pat, Utf8Decode(BaseName(e.path)), FALSE)     \* patterns and names are compared as characters
+  ELSE IF pre.p = "name" THEN GlobMatch(pre.pat, Utf8Decode(NameOf(e.path)), FALSE)     \* patterns and names are compared as characters
   ELSE tree[e.eff].kind = pre.c
 
 Reached(tree, cfg, roots, pre) == SelectSeq(WalkRoots(tree, cfg, roots).ents, LAMBDA e : PreHolds(tree, e, pre))
@@ -121,10 +126,13 @@ DeleteRun(tree, cfg, roots, pre) ==
       deleted |-> f.deleted, failed |-> f.failed, gone |-> f.gone,
       errs |-> WalkRoots(tree, dcfg, roots).errs]
 
-\* every physical node is met at most once (no directory reachable both directly and through a followed link)
+\* Every physical node is met at most once - as an entry or as what a followed link resolves to.  (Otherwise a
+\* removal changes what a later test sees - a link whose target went first has become dangling - and "the same set
+\* as -depth EXPR -print on an identical tree" is no longer what any find can deliver.)
 DeleteDom(tree, cfg, roots) ==
-  LET w == WalkRoots(tree, [cfg EXCEPT !.depth = TRUE, !.min = 0, !.max = NoMax], roots).ents IN
-  /\ \A i, j \in DOMAIN w : i # j => w[i].node # w[j].node
+  LET w == WalkRoots(tree, [cfg EXCEPT !.depth = TRUE, !.min = 0, !.max = NoMax], roots).ents
+      met == [i \in DOMAIN w |-> {w[i].node, w[i].eff}] IN
+  /\ \A i, j \in DOMAIN w : i # j => met[i] \cap met[j] = {}
   /\ \A r \in DOMAIN roots : roots[r].spell # <<46>>
 
 (***************************************************************************)
